@@ -126,6 +126,176 @@ Proof.
 Qed.
 
 (* ---------------------------------------------------------------------- *)
+(* the software version chain                                               *)
+(* ---------------------------------------------------------------------- *)
+(* version_brand appends exactly one segment, or nothing when the chain
+   already ends with the current version *)
+Theorem bump_spec segs :
+  bump_version segs = segs ++ [SEG_CUR]
+  \/ (bump_version segs = segs /\ segs <> [] /\ last segs 0 = SEG_CUR).
+Proof.
+  unfold bump_version. destruct segs as [|a l]; [now left|].
+  destruct (last (a :: l) 0 =? SEG_CUR) eqn:E.
+  - right. split; [reflexivity|]. split; [discriminate|lia].
+  - now left.
+Qed.
+
+Theorem bump_idem segs : bump_version (bump_version segs) = bump_version segs.
+Proof.
+  destruct (bump_spec segs) as [H|[H [Hn Hl]]].
+  - rewrite H. unfold bump_version at 1.
+    destruct (segs ++ [SEG_CUR]) eqn:E; [destruct segs; discriminate|].
+    rewrite <- E, last_last, Z.eqb_refl. reflexivity.
+  - now rewrite !H.
+Qed.
+
+Local Notation T_ := (fun _ : Z => true).
+Local Notation RK_ := (fun (k : Z) (_ : list Z) => k).
+
+(* ---------------------------------------------------------------------- *)
+(* repack --strip-basins applied twice                                      *)
+(* ---------------------------------------------------------------------- *)
+Lemma fold_remove_NoDup (bm : list Z) : forall it,
+  NoDup it ->
+  NoDup (fold_left (fun it b => if memZ b it then remove_firstZ b it else it)
+                   bm it).
+Proof.
+  induction bm as [|b bm IH]; intros it Hnd; cbn [fold_left]; [assumption|].
+  apply IH. destruct (memZ b it); [now apply (remove_firstZ_NoDup T_ T_ T_ T_ RK_)|assumption].
+Qed.
+
+Lemma ev_of_keys_NoDup fexists fscalar defective f (l : list Z) :
+  NoDup l -> NoDup (map fst (flat_map (ev_of fexists fscalar defective f) l)).
+Proof.
+  induction l as [|y l IH]; intros Hnd; [constructor|].
+  inversion Hnd as [|? ? Hy Hl]; subst. cbn [flat_map]. rewrite map_app.
+  assert (Hsub : forall x, In x (map fst (flat_map (ev_of fexists fscalar defective f) l))
+                           -> In x l).
+  { intros x Hx. apply in_map_iff in Hx. destruct Hx as [[k v] [<- Hx]].
+    apply in_flat_map in Hx. destruct Hx as [z [Hz Hx]].
+    apply ev_of_keys in Hx. cbn [fst]. now subst. }
+  unfold ev_of at 1. destruct (negb (fexists y)); [now apply IH|].
+  destruct (assoc y (f_events f)); [|now apply IH].
+  destruct (defective y); [now apply IH|].
+  cbn [map fst app]. constructor; [|now apply IH].
+  intros H. apply Hy. now apply Hsub.
+Qed.
+
+Theorem second_copy_strip_basins
+        (fexists fscalar fbmap defective defective2 : Z -> bool)
+        (rekey : Z -> list Z -> Z) (il it : bool) (f : h5file) :
+  let g := rtdc_copy fexists fscalar fbmap defective rekey FAll false il it f in
+  let h := rtdc_copy fexists fscalar fbmap defective2 rekey FAll false il it g in
+  NoDup (map fst (f_events f)) ->
+  (forall name, In name (map fst (f_events g)) -> defective2 name = false) ->
+  (forall name, assoc name (f_events h) = assoc name (f_events g))
+  /\ f_bevents h = [] /\ f_bevents g = [] /\ f_basins h = [] /\ f_basins g = []
+  /\ f_logs h = f_logs g /\ f_tables h = f_tables g /\ f_attrs h = f_attrs g
+  /\ f_soft h = f_soft g.
+Proof.
+  cbv zeta. intros Hnd Hd2.
+  set (g := rtdc_copy fexists fscalar fbmap defective rekey FAll false il it f).
+  destruct (rtdc_copy_events fexists fscalar fbmap defective2 rekey FAll false il it g)
+    as [Hev _].
+  destruct (rtdc_copy_events fexists fscalar fbmap defective rekey FAll false il it f)
+    as [Hgf _]. fold g in Hgf.
+  assert (Hfit : NoDup (feature_iter fscalar fbmap FAll false f)).
+  { unfold feature_iter. cbn [feature_iter0 events_src]. now apply fold_remove_NoDup. }
+  assert (Hgnd : NoDup (map fst (f_events g))).
+  { rewrite Hgf. now apply ev_of_keys_NoDup. }
+  split; [|repeat split].
+  - intros name. rewrite Hev.
+    rewrite (assoc_flat_map (ev_of fexists fscalar defective2 g)) by apply ev_of_keys.
+    destruct (assoc name (f_events g)) as [n|] eqn:Ea.
+    + assert (Hin : In name (map fst (f_events g))) by (eapply assoc_In_keys; eauto).
+      pose proof (assoc_In _ _ _ Ea) as Hmem.
+      assert (Hbm : fbmap name = false).
+      { rewrite Hgf in Hmem. apply in_flat_map in Hmem. destruct Hmem as [y [Hy Hm]].
+        apply ev_of_keys in Hm. subst y.
+        apply (feature_iter_all_nobasins fexists fscalar fbmap defective rekey) in Hy;
+          tauto. }
+      replace (memZ name (feature_iter fscalar fbmap FAll false g)) with true.
+      * apply (copy_invents_no_feature fexists fscalar fbmap defective rekey) in Hmem.
+        destruct Hmem as [n0 [_ [He [_ ->]]]].
+        unfold ev_of. rewrite He, Ea, (Hd2 name Hin). cbn [negb assoc].
+        rewrite Z.eqb_refl. now rewrite finish_idem.
+      * symmetry. apply memZ_In.
+        apply (feature_iter_all_nobasins fexists fscalar fbmap defective rekey);
+          [assumption|]. split; assumption.
+    + unfold ev_of. rewrite Ea.
+      destruct (memZ name _); [|reflexivity].
+      destruct (negb (fexists name)); reflexivity.
+  - apply (strip_basins_strips fexists fscalar fbmap defective2 rekey).
+  - apply (strip_basins_strips fexists fscalar fbmap defective rekey).
+  - apply (strip_basins_strips fexists fscalar fbmap defective2 rekey).
+  - apply (strip_basins_strips fexists fscalar fbmap defective rekey).
+  - unfold g, rtdc_copy. repeat destruct (fold_left _ _ _). cbn [f_logs].
+    destruct il; [|reflexivity]. rewrite map_map. cbn [fst snd].
+    apply map_ext. intros [k d]. cbn [fst snd]. now rewrite h5ds_copy_idempotent.
+  - unfold g, rtdc_copy. repeat destruct (fold_left _ _ _). cbn [f_tables].
+    destruct it; [|reflexivity]. rewrite map_map. reflexivity.
+  - unfold g. now rewrite !copy_preserves_metadata.
+  - unfold g. now rewrite !copy_preserves_version.
+Qed.
+
+(* ---------------------------------------------------------------------- *)
+(* compress applied to its own output (two different md5 names)             *)
+(* ---------------------------------------------------------------------- *)
+Lemma rtdc_copy_depends_on_events fexists fscalar fbmap defective rekey sel ib
+      il it il' it' (x y : h5file) :
+  f_events x = f_events y -> f_bevents x = f_bevents y ->
+  f_events (rtdc_copy fexists fscalar fbmap defective rekey sel ib il it x)
+  = f_events (rtdc_copy fexists fscalar fbmap defective rekey sel ib il' it' y)
+  /\ f_bevents (rtdc_copy fexists fscalar fbmap defective rekey sel ib il it x)
+     = f_bevents (rtdc_copy fexists fscalar fbmap defective rekey sel ib il' it' y).
+Proof.
+  intros He Hb.
+  destruct (rtdc_copy_events fexists fscalar fbmap defective rekey sel ib il it x)
+    as [-> ->].
+  destruct (rtdc_copy_events fexists fscalar fbmap defective rekey sel ib il' it' y)
+    as [-> ->].
+  unfold ev_of, bev_of, feature_iter, events_src. rewrite He, Hb. auto.
+Qed.
+
+Theorem compress_twice_same_data
+        (fexists fscalar fbmap defective defective2 : Z -> bool)
+        (rekey : Z -> list Z -> Z) (w1 w2 : bool) (k1 kw1 k2 kw2 : Z)
+        (f : h5file) :
+  let c1 := compress fexists fscalar fbmap defective rekey w1 k1 kw1 f in
+  let c2 := compress fexists fscalar fbmap defective2 rekey w2 k2 kw2 c1 in
+  (forall name, In name (map fst (f_events c1)) -> defective2 name = false) ->
+  (forall name, assoc name (f_events c2) = assoc name (f_events c1))
+  /\ (forall name, assoc name (f_bevents c2) = assoc name (f_bevents c1))
+  /\ f_tables c2 = f_tables c1 /\ f_attrs c2 = f_attrs c1
+  /\ f_soft c2 = f_soft c1.
+Proof.
+  cbv zeta. intros Hd2.
+  set (g := rtdc_copy fexists fscalar fbmap defective rekey FAll true true true f).
+  set (c1 := compress fexists fscalar fbmap defective rekey w1 k1 kw1 f) in *.
+  destruct (compress_events fexists fscalar fbmap defective rekey w1 k1 kw1 f)
+    as [E1 [B1 [T1 [_ [A1 S1]]]]]. fold c1 g in E1, B1, T1, A1, S1.
+  destruct (compress_events fexists fscalar fbmap defective2 rekey w2 k2 kw2 c1)
+    as [E2 [B2 [T2 [_ [A2 S2]]]]].
+  destruct (rtdc_copy_depends_on_events fexists fscalar fbmap defective2 rekey FAll
+              true true true true true c1 g E1 B1) as [E3 B3].
+  rewrite E1 in Hd2.
+  pose proof (second_copy_changes_no_data fexists fscalar fbmap defective defective2
+                rekey true true f) as P.
+  cbv zeta in P. fold g in P. destruct (P Hd2) as [P1 [P2 [_ [P4 _]]]].
+  split; [|split; [|split; [|split]]].
+  - intros name. rewrite E2, E3, E1. apply P1.
+  - intros name. rewrite B2, B3, B1. apply P2.
+  - assert (HT : forall d x,
+              f_tables (rtdc_copy fexists fscalar fbmap d rekey FAll true true true x)
+              = map (fun kd => (fst kd, table_copy (snd kd))) (f_tables x))
+      by (intros; unfold rtdc_copy; destruct (fold_left _ _ _); reflexivity).
+    rewrite T2, HT, T1. unfold g. rewrite HT, map_map.
+    apply map_ext. intros [k d]. reflexivity.
+  - now rewrite A2.
+  - rewrite S2, S1. apply bump_idem.
+Qed.
+
+(* ---------------------------------------------------------------------- *)
 (* tdms2rtdc                                                                *)
 (* ---------------------------------------------------------------------- *)
 Lemma tdms_kept_In n si sf fe le i :
@@ -234,31 +404,31 @@ Qed.
 
 Lemma ver_ltb_trans a b c : ver_ltb a b = true -> ver_ltb b c = true -> ver_ltb a c = true.
 Proof.
-  destruct a as [[a1 a2] a3], b as [[b1 b2] b3], c as [[c1 c2] c3].
+  destruct a as [[[a1 a2] a3] a4], b as [[[b1 b2] b3] b4], c as [[[c1 c2] c3] c4].
   unfold ver_ltb. intros H1 H2. lia.
 Qed.
 
 Lemma ver_ltb_irrefl_ge a b : ver_ltb a b = true -> ver_ltb b a = false.
 Proof.
-  destruct a as [[a1 a2] a3], b as [[b1 b2] b3]. unfold ver_ltb. intros H. lia.
+  destruct a as [[[a1 a2] a3] a4], b as [[[b1 b2] b3] b4]. unfold ver_ltb. intros H. lia.
 Qed.
 
 (* a file last written by dclab >= 0.48.3 has at most the aspect and the
    float32-time markers *)
 Theorem recent_dclab_marks_only_aspect_and_f32_time x c w :
-  df_last_dclab x = Some w -> ver_ltb w (0, 48, 3) = false ->
+  df_last_dclab x = Some w -> ver_ltb w (0, 48, 3, 0) = false ->
   defective_code x c = true ->
   (c = D_ASPECT /\ df_exact_aspect x = true)
   \/ (c = D_TIME /\ df_time_f32 x = true /\ df_has_frame x = true).
 Proof.
   intros Hl Hw. unfold defective_code, defect_inert_raw_cvx, defect_inert,
     defect_time, defect_volume, dclab_older. rewrite Hl.
-  assert (H1 : ver_ltb w (0, 47, 6) = false).
-  { destruct (ver_ltb w (0, 47, 6)) eqn:E; [|reflexivity].
-    rewrite (ver_ltb_trans w (0, 47, 6) (0, 48, 3) E eq_refl) in Hw. discriminate. }
-  assert (H2 : ver_ltb w (0, 37, 0) = false).
-  { destruct (ver_ltb w (0, 37, 0)) eqn:E; [|reflexivity].
-    rewrite (ver_ltb_trans w (0, 37, 0) (0, 48, 3) E eq_refl) in Hw. discriminate. }
+  assert (H1 : ver_ltb w (0, 47, 6, 0) = false).
+  { destruct (ver_ltb w (0, 47, 6, 0)) eqn:E; [|reflexivity].
+    rewrite (ver_ltb_trans w (0, 47, 6, 0) (0, 48, 3, 0) E eq_refl) in Hw. discriminate. }
+  assert (H2 : ver_ltb w (0, 37, 0, 0) = false).
+  { destruct (ver_ltb w (0, 37, 0, 0)) eqn:E; [|reflexivity].
+    rewrite (ver_ltb_trans w (0, 37, 0, 0) (0, 48, 3, 0) E eq_refl) in Hw. discriminate. }
   rewrite Hw, H1, H2, !andb_false_r.
   destruct (c =? D_ASPECT) eqn:E1; [intros H; left; split; [lia|exact H]|].
   destruct ((c =? D_CVX) || (c =? D_RAW)); [discriminate|].
@@ -276,11 +446,21 @@ Theorem aspect_marker_is_exact x :
 Proof. reflexivity. Qed.
 
 Example ex_defect :
-  let old := mkFacts false true (Some (0, 30, 0)) (Some (2, 0, 5)) false true true
-                     false true in
+  let old := mkFacts false true (Some (0, 30, 0, 0)) (Some (2, 0, 5, 0)) false None
+                     false true true false true in
   defective_code old D_VOLUME = true /\ defective_code old D_TIME = true
   /\ defective_code old D_TILT = true /\ defective_code old D_RAW = false
   /\ defective_code old D_ASPECT = false
-  /\ defective_code (mkFacts false true (Some (0, 30, 0)) (Some (2, 0, 5)) true
-                             true true false true) D_VOLUME = false.
+  /\ defective_code (mkFacts false true (Some (0, 30, 0, 0)) (Some (2, 0, 5, 0))
+                             false None true true true false true) D_VOLUME = false
+  (* 0.47.6rc1 is older than 0.47.6: time still marked *)
+  /\ defective_code (mkFacts false true (Some (0, 47, 6, -1)) (Some (2, 0, 5, 0))
+                             false None false true true false false) D_TIME = true
+  (* newer Shape-In: bare first version 2.1.6 + acquisition log is trusted *)
+  /\ defective_code (mkFacts false false (Some (0, 48, 0, 0)) None true
+                             (Some (2, 1, 6, 0)) false true true false true)
+                    D_RAW = false
+  /\ defective_code (mkFacts false false (Some (0, 48, 0, 0)) None false
+                             (Some (2, 1, 6, 0)) false true true false true)
+                    D_RAW = true.
 Proof. vm_compute. auto 10. Qed.
